@@ -273,10 +273,89 @@ def evaluate(case) -> Result:
         w.close()
 
 
+def install_points():
+    from dv import sched, simkernel as sk
+    mods = sk.load_node()
+    N = mods["node"].Node
+    return sched.install({N.stop: None})
+
+
+def stop_vs_loss(decisions, nconns=3, loser=1):
+    """stop() is called while one of the ready peers goes away at the same moment: the I/O thread removes that
+    connection while stop() walks the connection table.  One schedule; returns (trace, problems)."""
+    from dv import sched
+    w = W.NodeWorld({"peers": [{"name": f"peer{i + 1}.example", "ip": [f"10.1.1.{i + 1}"]} for i in range(nconns)],
+                     "apps": [{"app_id": 4, "auth": True, "peers": list(range(nconns)), "handler": "answer"}],
+                     "node_timers": {"idle": 5000, "dwa": 5000, "cer": 50, "cea": 50, "wakeup": 1}})
+    try:
+        w.start()
+        conns = [w.handshake_in(f"peer{i + 1}.example", auth=[4], ip=f"10.1.1.{i + 1}", hbh=0x100 + i) for i in range(nconns)]
+        ex = sched.Explorer(decisions)
+        sched.attach(w.k, ex)
+        conns[loser].peer_closed = True
+
+        def lose_and_stop():
+            conns[loser].remote.close()          # the peer's FIN reaches the node's socket as stop() begins
+            w.node.stop(wait_timeout=3, force=False)
+        ex.armed = True
+        box = w.stop_box = w.k.spawn(lose_and_stop, name="stopper")
+        w.k.run()
+        ex.armed = False
+        problems = []
+        for sec in range(8):
+            for i, c in enumerate(conns):
+                if c.node_closed or c.peer_closed:
+                    continue
+                dprs = [f for f in c.refresh() if f.code == W.CMD_DP and f.is_request]
+                if dprs:
+                    w.feed_msg(c, {"k": "DPA", "host": f"peer{i + 1}.example", "hbh": dprs[0].h["hbh"], "e2e": dprs[0].h["e2e"]})
+            if box["done"]:
+                break
+            w.advance(1)
+        if box["exc"] is not None:
+            problems.append((f"stop-raised/{type(box['exc']).__name__}", repr(box["exc"])))
+        elif not box["done"]:
+            problems.append(("stop-did-not-return", "stop() still running 8 s after the call (wait timeout 3 s)"))
+        w.advance(3)
+        left = [s_ for s_ in w.net.open_sockets()]
+        if left:
+            problems.append(("sockets-open-after-stop", f"{left[:4]}"))
+        for sig, d in W.monitor_threads(w):
+            problems.append((f"thread-died/{sig}", d))
+        return ex.trace, problems
+    finally:
+        w.close()
+
+
+def schedule_part(rec, shard, nshards, thorough):
+    from dv import sched
+    from dv.common import fp
+    info = install_points()
+    if shard == 0:
+        rec.extra["preemption_functions"] = info
+    for nconns, loser in ((2, 0), (3, 1)):
+        holder = {}
+
+        def run_one(dec, nconns=nconns, loser=loser):
+            tr, problems = stop_vs_loss(dec, nconns, loser)
+            holder["last"] = problems
+            return tr
+        n = 0
+        for dec, trace in sched.enumerate_schedules(run_one, 2 if thorough else 1, shard, nshards):
+            case = {"stop_vs_loss": [nconns, loser], "schedule": {str(i): c for i, c in sorted(dec.items())}}
+            for kind, detail in holder["last"]:
+                rec.violation(f"C18/concurrent-loss/{kind}", case, detail)
+            n += 1
+            rec.case(fp("sched", nconns, tuple(sorted(dec.items()))) if dec else None,
+                     ["schedule-exploration", f"deviations:{len(dec)}"], sample=lambda: dict(case, choice_points=len(trace)))
+        rec.extra["stop_vs_loss_schedules"] = rec.extra.get("stop_vs_loss_schedules", 0) + n
+
+
 def shard_main(shard, nshards, tier, scale):
     rec = Recorder(PID)
     thorough = tier == "thorough"
     shrunk = set()
+    schedule_part(rec, shard, nshards, thorough)
     # grid: one connection, every state x reaction x force
     jobs = []
     for stt in sorted(set(STATES)):
@@ -340,7 +419,7 @@ def run(tier, scale=1.0):
     for d in hyp.pool_run(shard_main, (tier, scale)):
         rec.merge(d)
     required = {f"state:{s}": 1 for s in set(STATES)} | {f"reaction:{r}": 1 for r in REACTIONS} | \
-               {"handshake-completes-while-stopping": 1, "listeners:2": 1, "listeners:4": 1, "simultaneous-dpas": 1, "second-connection-of-a-peer": 1, "force:True": 1, "newcomers:2": 1, "nconns:3": 1, "reconnect-inside:True": 1, "app:threading": 1}
+               {"schedule-exploration": 1, "handshake-completes-while-stopping": 1, "listeners:2": 1, "listeners:4": 1, "simultaneous-dpas": 1, "second-connection-of-a-peer": 1, "force:True": 1, "newcomers:2": 1, "nconns:3": 1, "reconnect-inside:True": 1, "app:threading": 1}
     return finish(rec, tier=tier, level="exploration", rule=RULE, assumptions=ASSUME, t0=t0,
                   required_classes=required)
 
